@@ -66,3 +66,8 @@ Definition ev_mmiter_fwd cfg (rank : N -> N) ar a h x k :=
              (f <- finder_new cfg rank ar x;; fiter_run ar f a h k fiter_new).
 Definition ev_mmiter_rev ar a h x k :=
   canon_list (fun o => [code_opt o]) (f <- rfinder_new x;; riter_run ar f a h k (riter_new h)).
+
+(* raw-pointer forms *)
+Definition ev_find_raw (b : backend) ns a h so eo := canon_opt (backend_find_raw ns a h so eo b).
+Definition ev_rfind_raw (b : backend) ns a h so eo := canon_opt (backend_rfind_raw ns a h so eo b).
+Definition ev_count_raw (b : backend) ns a h so eo := canon_nat (backend_count_raw ns a h so eo b).
